@@ -14,7 +14,8 @@ EXPLANATION = (
     'mean over the accumulated fold products with the 1/n_channel factor, labels come from the sorted copy that the '
     'fold means were computed from, and the input dataset is copied before it is sorted. It does NOT decide the numeric '
     'value nor permutation invariance.'
-    ' Also: (MEAN-FIRST) fold means are taken before any non-linear map; (LOG-SIDE) in poisson_cv the logarithm is taken of the held-out fold and the rates come from the training folds; (LOOP-CARRY) the precision of a fold pair does not carry state from earlier pairs.')
+    ' Also: (MEAN-FIRST) fold means are taken before any non-linear map; (LOG-SIDE) in poisson_cv the logarithm is taken of the held-out fold and the rates come from the training folds; (LOOP-CARRY) the precision of a fold pair does not carry state from earlier pairs.'
+    ' Round 6: (KERNEL-SYM) the asymmetric cross-fold kernel enters the distance together with its transpose.')
 ASSUMPTIONS = [
     'dependence is over-approximated; CALL tokens identify individual call sites',
     'complement idioms accepted: np.setdiff1d(U, x), U[U != x], U[~np.isin(U, x)], np.delete(U, i)',
